@@ -143,6 +143,10 @@ def build_harness(release=False, zeroize=False):
     """(re)build the harness against /repo's current working tree; serialised by a lock file.
     Returns (ok, log, binary path)."""
     os.makedirs(WORK, exist_ok=True)
+    ov = os.environ.get("VERIF_HBIN_ZEROIZE" if zeroize else "VERIF_HBIN")
+    if ov and not release:
+        # coverage measurement only (tools/coverage.sh): an already built, coverage-instrumented harness binary
+        return True, "override", ov
     tdir = "target-zeroize" if zeroize else "target"
     cmd = ["cargo", "build", "--offline", "--target-dir", os.path.join(HARNESS_DIR, tdir)]
     if release:
